@@ -51,6 +51,8 @@ def run(ctx, prefixes):
                act("ctl", 0, t="SM", v=16384), act("ctl", 0, t="WU", v=65535), act("ctl", 1, t="WU", v=65535)]},
         {"h": [act("ctl", 0, t="SM", v=20000), act("headers", 3), act("data", 3, 40000), act("data", 3, 20000), act("data", 3, 20000, es=True),
                act("ctl", 0, t="SM", v=16384), act("ctl", 3, t="WU", v=65535), act("ctl", 0, t="WU", v=65535)]},
+        # SETTINGS frames without parameters from either side, between stream frames
+        {"h": [act("settings"), act("headers", 1), act("ctl", 0, t="SE"), act("data", 1, 100, es=True), act("settings")]},
         # an extension frame between the frames of a stream
         {"h": [act("headers", 1), act("unknown"), act("data", 1, 100), act("headers", 3, es=True), act("data", 1, 0, es=True)]},
         # the sender ends its side of the connection while the relay still holds DATA for the receiver, which then
